@@ -179,6 +179,16 @@ def _result_kind_of_block(blk):
             rv = st["rv"]
             if rv["k"] == "agg" and rv.get("ak") == "adt" and rv.get("adt", "").split("<")[0] in ("std::result::Result", "core::result::Result") and rv.get("variant") in ("Ok", "Err"):
                 kind = rv["variant"]
+                # Ok(None) / Ok(Some(_)): the payload is an Option literal built in this block
+                if kind == "Ok" and rv.get("ops") and rv["ops"][0].get("k") in ("move", "copy") and not rv["ops"][0]["pl"]["p"]:
+                    x = rv["ops"][0]["pl"]["l"]
+                    for st2 in blk["stmts"]:
+                        if st2 is st:
+                            break
+                        if st2["k"] == "assign" and st2["pl"]["l"] == x and not st2["pl"]["p"]:
+                            rv2 = st2["rv"]
+                            if rv2["k"] == "agg" and rv2.get("ak") == "adt" and rv2.get("adt", "").split("<")[0] in ("std::option::Option", "core::option::Option") and rv2.get("variant") in ("None", "Some"):
+                                kind = "Ok:" + rv2["variant"]
             else:
                 kind = "?"
     t = blk["term"]
@@ -287,10 +297,279 @@ def _thread_target(rec, tgt, dest, kind):
     return tgt
 
 
+def _async_body(prog, cb):
+    """the coroutine body of `async fn` cb when cb is an inlinable async helper, else None"""
+    if cb is None or cb.def_kind not in ("Fn", "AssocFn") or cb.test or cb.path.startswith("<") or len(cb.blocks) > 12:
+        return None
+    sig = prog.fnsigs.get(cb.path)
+    if sig is None or sig.get("exported") or _is_named(cb.name):
+        return None
+    k = prog.bodies.get(cb.path + "::{closure#0}")
+    if k is None or not k.coroutine or len(k.blocks) > 600:
+        return None
+    # the outer body does nothing but build the coroutine
+    builds = False
+    for blk in cb.blocks:
+        for st in blk["stmts"]:
+            if st["k"] == "assign" and st["rv"]["k"] == "agg" and st["rv"].get("ak") == "coroutine" and st["rv"].get("def") == k.path:
+                builds = True
+        if blk["term"] and blk["term"]["k"] == "call":
+            return None
+    return k if builds else None
+
+
+def _find_await(blocks, bc):
+    """the pieces of `call(..).await` that starts at block bc: (into_future block, awaitee local,
+    poll block, switch block, ready arm, yield drop target) or None"""
+    t = blocks[bc]["term"]
+    if t["t"] is None or t["dest"]["p"]:
+        return None
+    b1 = t["t"]
+    t1 = blocks[b1]["term"]
+    if not (t1 and t1["k"] == "call" and (t1.get("callee") or "").endswith("IntoFuture::into_future") and t1["args"] and t1["args"][0].get("pl", {}).get("l") == t["dest"]["l"] and t1["t"] is not None):
+        return None
+    fut1 = t1["dest"]["l"]
+    awaitee = None
+    for st in blocks[t1["t"]]["stmts"]:
+        if st["k"] == "assign" and not st["pl"]["p"] and st["rv"]["k"] == "use" and st["rv"]["op"].get("k") == "move" and st["rv"]["op"]["pl"]["l"] == fut1 and not st["rv"]["op"]["pl"]["p"]:
+            awaitee = st["pl"]["l"]
+    if awaitee is None:
+        return None
+    # forward to the poll
+    cur, poll = t1["t"], None
+    for _ in range(10):
+        tt = blocks[cur]["term"]
+        if tt is None:
+            return None
+        if tt["k"] == "call" and (tt.get("callee") or "").endswith("Future::poll"):
+            poll = cur
+            break
+        nx = _succ_idx(tt)
+        if len(nx) != 1:
+            return None
+        cur = nx[0]
+    if poll is None or blocks[poll]["term"]["t"] is None or blocks[poll]["term"]["dest"]["p"]:
+        return None
+    sw = blocks[poll]["term"]["t"]
+    ts = blocks[sw]["term"]
+    if not ts or ts["k"] != "switch":
+        return None
+    ready = [bb for v, bb in ts["targets"] if v == "0"]
+    pend = [bb for v, bb in ts["targets"] if v == "1"]
+    if not ready or not pend:
+        return None
+    # the yield of this await and its drop target
+    cur, ydrop = pend[0], None
+    for _ in range(8):
+        tt = blocks[cur]["term"]
+        if tt is None:
+            break
+        if tt["k"] == "yield":
+            ydrop = tt["drop"]
+            break
+        nx = _succ_idx(tt)
+        if len(nx) != 1:
+            break
+        cur = nx[0]
+    return {"into": b1, "awaitee": awaitee, "poll": poll, "sw": sw, "ready": ready[0], "ydrop": ydrop}
+
+
+def _thread_chain(rec, start, P, S, kind):
+    """Copy the straight-line chain that starts at block `start` and decide, in the copy, the
+    switches whose outcome is known: on the discriminant of a Poll held in a local of P (Ready),
+    and — when kind is 'Ok'/'Err' — on the Result (or the ControlFlow `?` makes of it) held in a
+    local of S. Returns the first copied block."""
+    blocks = rec["blocks"]
+    P, S, CF, D = set(P), set(S), set(), {}
+    S2 = set()
+    cur, first, prev = start, None, None
+    main, sub = (kind.split(":") + [None])[:2] if kind else (None, None)
+    want = None if main not in ("Ok", "Err") else ("0" if main == "Ok" else "1")
+    want2 = {"None": "0", "Some": "1"}.get(sub)
+    for _step in range(40):
+        nb = copy.deepcopy(blocks[cur])
+        idx = len(blocks)
+        blocks.append(nb)
+        if prev is not None:
+            _retarget(blocks[prev]["term"], cur, idx)
+        else:
+            first = idx
+        prev = idx
+        for st in nb["stmts"]:
+            if st["k"] != "assign" or st["pl"]["p"]:
+                continue
+            rv = st["rv"]
+            if rv["k"] == "use" and rv["op"].get("k") in ("move", "copy"):
+                src = rv["op"]["pl"]
+                if not src["p"] and src["l"] in S:
+                    S.add(st["pl"]["l"])
+                elif not src["p"] and src["l"] in S2:
+                    S2.add(st["pl"]["l"])
+                elif src["l"] in P and len(src["p"]) == 2 and src["p"][0][0] == "dc" and src["p"][0][1] == "Ready":
+                    S.add(st["pl"]["l"])
+                elif want2 is not None and len(src["p"]) == 2 and src["p"][0][0] == "dc" and ((src["l"] in CF and src["p"][0][1] == "Continue") or (src["l"] in S and src["p"][0][1] == "Ok")):
+                    S2.add(st["pl"]["l"])
+            elif rv["k"] == "discr" and not rv["pl"]["p"]:
+                z = rv["pl"]["l"]
+                if z in P:
+                    D[st["pl"]["l"]] = ("0", False)
+                elif want is not None and (z in S or z in CF):
+                    D[st["pl"]["l"]] = (want, want2 is None)
+                elif want2 is not None and z in S2:
+                    D[st["pl"]["l"]] = (want2, True)
+        t = nb["term"]
+        if t is None:
+            break
+        k = t["k"]
+        if k == "switch" and t["op"].get("k") in ("move", "copy") and not t["op"]["pl"]["p"] and t["op"]["pl"]["l"] in D:
+            v, final = D[t["op"]["pl"]["l"]]
+            arm = [bb for vv, bb in t["targets"] if vv == v]
+            arm = arm[0] if arm else t["otherwise"]
+            nb["term"] = {"k": "goto", "t": arm, "span": t.get("span"), "exp": t.get("exp", ""), "threaded": kind or "Ready"}
+            if final or want is None:
+                break
+            cur = arm
+            continue
+        if k == "call":
+            if want is not None and (t.get("callee") or "").endswith("Try::branch") and t["args"] and t["args"][0].get("k") in ("move", "copy") and not t["args"][0]["pl"]["p"] and t["args"][0]["pl"]["l"] in S and not t["dest"]["p"] and t["t"] is not None:
+                CF.add(t["dest"]["l"])
+                cur = t["t"]
+                continue
+            break
+        nx = _succ_idx(t)
+        if k in ("goto", "drop", "falseedge", "falseunwind", "assert") and len(nx) == 1:
+            cur = nx[0]
+            continue
+        break
+    return first
+
+
+def _inline_await(prog, rec, bc, cb, k, done, stack):
+    """splice the coroutine body of the async helper called at block bc into rec (a coroutine)"""
+    blocks = rec["blocks"]
+    t = blocks[bc]["term"]
+    aw = _find_await(blocks, bc)
+    if aw is None or len(t["args"]) != len(t.get("params") or []):
+        return False
+    krec = split_returns(copy.deepcopy(get_inlined(prog, k, done, stack | {rec["path"]})))
+    loff = len(rec["locals"])
+    boff = len(blocks)
+    poff = len(rec.get("promoted", []))
+    lmap = lambda l, loff=loff: 2 if l == 2 else l + loff
+    for i, lo in enumerate(krec["locals"]):
+        lo2 = copy.deepcopy(lo)
+        if i == 1:
+            lo2["alias"] = True
+        lo2["inlined_from"] = krec["path"]
+        rec["locals"].append(lo2)
+    for d in krec.get("debug", []):
+        d2 = copy.deepcopy(d)
+        d2["pl"] = _remap(d["pl"], lmap, poff)
+        d2["arg"] = None
+        if d2["pl"]["l"] != 2:
+            rec.setdefault("debug", []).append(d2)
+    rec.setdefault("promoted", []).extend(copy.deepcopy(krec.get("promoted", [])))
+    pt = blocks[aw["poll"]]["term"]
+    pr = pt["dest"]
+    unwind_to = pt["unwind"]
+    pending = []
+    for cblk in krec["blocks"]:
+        nb = {"cleanup": cblk["cleanup"], "stmts": [_remap(s, lmap, poff) for s in cblk["stmts"]], "term": None}
+        ct = cblk["term"]
+        if ct is not None:
+            ct2 = _shift_term(_remap(ct, lmap, poff), boff, unwind_to)
+            if ct2["k"] == "return":
+                nb["stmts"].append({"k": "assign", "pl": copy.deepcopy(pr), "rv": {"k": "agg", "ak": "adt", "adt": "std::task::Poll", "variant": "Ready", "fields": ["0"], "ops": [{"k": "move", "pl": {"l": lmap(0), "p": []}}]}, "span": t.get("span"), "exp": t.get("exp", "")})
+                kind = ct2.get("ret_kind")
+                ct2 = {"k": "goto", "t": None, "span": ct.get("span"), "exp": ct.get("exp", ""), "inlined_return": krec["path"]}
+                pending.append((nb, kind))
+            elif ct2["k"] == "resume" and isinstance(unwind_to, int):
+                ct2 = {"k": "goto", "t": unwind_to, "span": ct.get("span"), "exp": ct.get("exp", ""), "inlined_resume": krec["path"]}
+            elif ct2["k"] == "cordrop" and aw["ydrop"] is not None:
+                ct2 = {"k": "goto", "t": aw["ydrop"], "span": ct.get("span"), "exp": ct.get("exp", ""), "inlined_cordrop": krec["path"]}
+            nb["term"] = ct2
+        blocks.append(nb)
+    for nb, kind in pending:
+        nb["term"]["t"] = _thread_chain(rec, aw["sw"], {pr["l"]}, set(), kind)
+    # the call builds the future from its arguments; the poll enters the body
+    names = t.get("params") or []
+    blocks[bc]["stmts"].append({"k": "assign", "pl": copy.deepcopy(t["dest"]), "rv": {"k": "agg", "ak": "coroutine", "def": k.path, "fields": list(names), "ops": [copy.deepcopy(a) for a in t["args"]]}, "span": t.get("span"), "exp": t.get("exp", "")})
+    blocks[bc]["term"] = {"k": "goto", "t": t["t"], "span": t.get("span"), "exp": t.get("exp", ""), "inlined_call": cb.path}
+    pb = blocks[aw["poll"]]
+    pb["stmts"].append({"k": "assign", "pl": {"l": lmap(1), "p": []}, "rv": {"k": "use", "op": {"k": "copy", "pl": {"l": aw["awaitee"], "p": []}}}, "span": pt.get("span"), "exp": pt.get("exp", "")})
+    pb["term"] = {"k": "goto", "t": boff, "span": pt.get("span"), "exp": pt.get("exp", ""), "inlined_poll": krec["path"]}
+    rec.setdefault("inlined", []).append(cb.path)
+    return True
+
+
+def _ctor_of(prog, op):
+    """(adt path, variant name) when the operand is the constructor function of a tuple variant"""
+    if op.get("k") != "const" or "fn" not in op:
+        return None
+    parts = op["fn"].split("::")
+    adt = prog.adts.get("::".join(parts[:-1]))
+    if adt is None:
+        return None
+    for v in adt.get("variants", []):
+        if v["name"] == parts[-1] and len(v.get("fields", [])) == 1:
+            return "::".join(parts[:-1]), parts[-1]
+    return None
+
+
+def desugar_combinators(prog, rec):
+    """`opt.map_or(default, Enum::Variant)` and `opt.map(Enum::Variant)` written out as the match
+    they abbreviate (the library source of Option::map / map_or is exactly that match): the rules
+    see the same aggregates and edges as for `match opt { Some(v) => Enum::Variant(v), None => … }`"""
+    changed = False
+    blocks = rec["blocks"]
+    for bi in range(len(blocks)):
+        t = blocks[bi]["term"]
+        if not t or t["k"] != "call" or t["t"] is None:
+            continue
+        cn = strip_generics(t.get("callee") or "")
+        if cn == "std::option::Option::map_or" and len(t["args"]) == 3:
+            x, dflt, f = t["args"]
+        elif cn == "std::option::Option::map" and len(t["args"]) == 2:
+            x, f = t["args"]
+            dflt = None
+        else:
+            continue
+        ctor = _ctor_of(prog, f)
+        if ctor is None or x.get("k") not in ("move", "copy") or x["pl"]["p"]:
+            continue
+        adt, var = ctor
+        xl = x["pl"]["l"]
+        dl = len(rec["locals"])
+        rec["locals"].append({"ty": "isize", "ty_def": None, "user": False})
+        sp, ex = t.get("span"), t.get("exp", "")
+        n_none, n_some = len(blocks), len(blocks) + 1
+        if dflt is not None:
+            none_rv = {"k": "use", "op": copy.deepcopy(dflt)}
+            some_rv = {"k": "agg", "ak": "adt", "adt": adt, "variant": var, "fields": ["0"], "ops": [{"k": "move", "pl": {"l": xl, "p": [["dc", "Some", 1], ["f", 0, "0"]]}}]}
+        else:
+            none_rv = {"k": "agg", "ak": "adt", "adt": "std::option::Option", "variant": "None", "fields": [], "ops": []}
+            il = len(rec["locals"])
+            rec["locals"].append({"ty": adt, "ty_def": None, "user": False})
+            some_rv = None
+        blocks.append({"cleanup": blocks[bi]["cleanup"], "stmts": [{"k": "assign", "pl": copy.deepcopy(t["dest"]), "rv": none_rv, "span": sp, "exp": ex}], "term": {"k": "goto", "t": t["t"], "span": sp, "exp": ex}})
+        if some_rv is not None:
+            st_some = [{"k": "assign", "pl": copy.deepcopy(t["dest"]), "rv": some_rv, "span": sp, "exp": ex}]
+        else:
+            st_some = [
+                {"k": "assign", "pl": {"l": il, "p": []}, "rv": {"k": "agg", "ak": "adt", "adt": adt, "variant": var, "fields": ["0"], "ops": [{"k": "move", "pl": {"l": xl, "p": [["dc", "Some", 1], ["f", 0, "0"]]}}]}, "span": sp, "exp": ex},
+                {"k": "assign", "pl": copy.deepcopy(t["dest"]), "rv": {"k": "agg", "ak": "adt", "adt": "std::option::Option", "variant": "Some", "fields": ["0"], "ops": [{"k": "move", "pl": {"l": il, "p": []}}]}, "span": sp, "exp": ex},
+            ]
+        blocks.append({"cleanup": blocks[bi]["cleanup"], "stmts": st_some, "term": {"k": "goto", "t": t["t"], "span": sp, "exp": ex}})
+        blocks[bi]["stmts"].append({"k": "assign", "pl": {"l": dl, "p": []}, "rv": {"k": "discr", "pl": {"l": xl, "p": []}, "adt": "std::option::Option", "variants": [["0", "None"], ["1", "Some"]]}, "span": sp, "exp": ex})
+        blocks[bi]["term"] = {"k": "switch", "op": {"k": "move", "pl": {"l": dl, "p": []}}, "ty": "isize", "targets": [["0", n_none], ["1", n_some]], "otherwise": n_none, "span": sp, "exp": ex, "desugared": cn}
+        changed = True
+    return changed
+
+
 def inline_rec(prog, rec, done, stack):
     """rec with every inlinable call replaced by the callee's (already inlined) blocks"""
     rec = copy.deepcopy(rec)
-    changed = False
+    changed = desugar_combinators(prog, rec)
     bi = 0
     n_inl = 0
     while bi < len(rec["blocks"]):
@@ -300,6 +579,13 @@ def inline_rec(prog, rec, done, stack):
         if not t or t["k"] != "call" or n_inl > 40:
             continue
         cb = prog.callee_body(t)
+        if cb is not None and rec.get("coroutine") and cb.path not in stack and cb.path != rec["path"]:
+            kb = _async_body(prog, cb)
+            if kb is not None and kb.path not in stack and kb.path != rec["path"]:
+                if _inline_await(prog, rec, bi - 1, cb, kb, done, stack):
+                    changed = True
+                    n_inl += 1
+                continue
         if cb is None or cb.path in stack or cb.path == rec["path"] or not inlinable(prog, cb):
             continue
         crec = split_returns(copy.deepcopy(get_inlined(prog, cb, done, stack | {rec["path"]})))
@@ -342,7 +628,12 @@ def inline_rec(prog, rec, done, stack):
             tt = nb["term"]
             if tt and tt["k"] == "goto" and isinstance(tt["t"], tuple):
                 kind = tt["t"][1]
-                tt["t"] = _thread_target(rec, t["t"], t["dest"], kind) if kind in ("Ok", "Err") else t["t"]
+                if kind in ("Ok", "Err"):
+                    tt["t"] = _thread_target(rec, t["t"], t["dest"], kind)
+                elif kind and ":" in kind and not t["dest"]["p"]:
+                    tt["t"] = _thread_chain(rec, t["t"], set(), {t["dest"]["l"]}, kind)
+                else:
+                    tt["t"] = t["t"]
         # bind the parameters and jump into the copy
         for i, a in enumerate(t["args"]):
             blk["stmts"].append({"k": "assign", "pl": {"l": lmap(i + 1), "p": []}, "rv": {"k": "use", "op": copy.deepcopy(a)}, "span": t.get("span"), "exp": t.get("exp", "")})
